@@ -157,6 +157,23 @@ Proof.
       exfalso. specialize (Sp b ltac:(lia)). unfold P in Sp. rewrite Hab in Sp. discriminate.
 Qed.
 
+Lemma slice_all_t (l : list (val R)) : py_slice (VTuple l) VNone (VInt (Z.of_nat (List.length l))) = VTuple l.
+Proof.
+  unfold py_slice. cbn [norm]. unfold clampi.
+  assert (E1 : (Z.of_nat (List.length l) <? 0)%Z = false) by (apply Z.ltb_ge; lia).
+  rewrite E1. cbv zeta.
+  assert (E2 : (Z.of_nat (List.length l) <? Z.of_nat (List.length l))%Z = false) by (apply Z.ltb_irrefl).
+  repeat rewrite ?E1, ?E2. cbn [Z.to_nat skipn]. rewrite Z.sub_0_r, Nat2Z.id, firstn_all. reflexivity.
+Qed.
+Lemma zip_ftuple (a b : list R) :
+  py_iter (py_zip (VTuple (map VFloat a)) (VTuple (map VFloat b))) = VList (map pairv (combine a b)).
+Proof.
+  unfold py_zip, py_iter. change (bind (VTuple ?l) ?f) with (f (VTuple l)). cbv beta.
+  change (bind (VTuple ?l) ?f) with (f (VTuple l)). cbv beta. unfold seq_of. rewrite zip2_flist. reflexivity.
+Qed.
+Lemma bind_VTuple (l : list (val R)) (k : val R -> val R) : bind (VTuple l) k = k (VTuple l).
+Proof. reflexivity. Qed.
+
 Lemma map_fst_combine : forall a b : list R, List.length b = List.length a -> map fst (combine a b) = a.
 Proof. induction a as [|x a IH]; intros [|y b] H; simpl in *; try reflexivity; try discriminate. f_equal. apply IH. lia. Qed.
 Lemma map_snd_combine : forall a b : list R, List.length b = List.length a -> map snd (combine a b) = b.
@@ -219,6 +236,49 @@ Ltac set_prefix :=
   match goal with |- ?f _ _ _ = _ =>
      let g := open_constr:(dup_fix _ _ _) in unify f g; change f with g end.
 
+Ltac set_prefix_t :=
+  unfold Interpolation_set;
+  grun;
+  rewrite bind_VTuple; cbv beta; rewrite bind_VTuple; cbv beta;
+  match goal with |- bind ?e _ = _ =>
+    let Em := fresh "Em" in
+    assert (Em : e = VInt (Z.of_nat (List.length px)));
+    [ simpl py_len; rewrite !map_length, Hlen; unfold mk_list; simpl;
+      rewrite min_two_int, Z.ltb_irrefl; reflexivity
+    | rewrite Em, bind_VInt; clear Em ] end;
+  rewrite <- (map_length (@VFloat R) px) at 1; rewrite slice_all_t, bind_VTuple; cbv beta;
+  rewrite <- Hlen; rewrite <- (map_length (@VFloat R) py) at 1; rewrite slice_all_t, bind_VTuple; cbv beta;
+  match goal with |- ifv Rops ?c _ _ = _ =>
+    let Ec2 := fresh "Ec2" in
+    assert (Ec2 : c = VBool false);
+    [ cbv -[Z.of_nat List.length List.map Z.ltb]; rewrite !map_length, Hlen;
+      destruct (Z.ltb_spec (Z.of_nat (List.length px)) 2); [lia | reflexivity]
+    | rewrite Ec2; clear Ec2 ] end;
+  change (ifv Rops (VBool false) ?a ?b) with (b tt); cbv beta;
+  rewrite zip_ftuple, bind_VList; cbv beta;
+  match goal with |- context [seq_of (VList ?l)] => change (seq_of (VList l)) with l end;
+  change S0 with (VObj cInterpolation [VList (map (@VFloat R) []); VList (map (@VFloat R) []); VList []; VFloat (Rlit 1 (-10))]);
+  match goal with |- ?f _ _ _ _ = _ =>
+     let g := open_constr:(zipapp_fix _) in unify f g; change f with g end;
+  match goal with |- zipapp_fix ?KK _ _ ?xv ?yv = _ =>
+    let E := fresh "E" in
+    destruct (zipapp_spec KK (VList []) (VFloat (Rlit 1 (-10))) (combine px py) [] [] xv yv) as (? & ? & E);
+    rewrite E; clear E end;
+  cbv beta; simpl app;
+  rewrite (map_fst_combine px py Hlen), (map_snd_combine px py Hlen);
+  change ([] ++ px) with px; change ([] ++ py) with py;
+  getf0;
+  match goal with |- bind ?e _ = _ =>
+    let Er := fresh "Er" in
+    assert (Er : e = VList (zrange_nat 0 (List.length px - 1)));
+    [ cbv -[Z.of_nat List.length List.map Z.sub Z.to_nat zrange_nat]; rewrite map_length;
+      replace (Z.to_nat (Z.of_nat (List.length px) - 1 - 0)) with (List.length px - 1)%nat by lia; reflexivity
+    | rewrite Er, bind_VList; clear Er ] end;
+  cbv beta;
+  match goal with |- context [seq_of (VList ?l)] => change (seq_of (VList l)) with l end;
+  match goal with |- ?f _ _ _ = _ =>
+     let g := open_constr:(dup_fix _ _ _) in unify f g; change f with g end.
+
 Theorem set_lists :
   Interpolation_set Rops S0 (VTuple [flist px; flist py]) = VTuple [built (sx px) (sy px py); VNone].
 Proof.
@@ -226,6 +286,42 @@ Proof.
   destruct (stored_pipeline px py Hlen Hne Hsep H64) as (Eo & Ec & _).
   unfold built, tobj, flist, tol0 in Eo, Ec. unfold built, tobj.
   set_prefix.
+  match goal with |- dup_fix ?KK ?rrng ?ccond _ ?ii ?kk = _ =>
+    destruct (dup_none KK rrng ccond n) with (r := (n - 1)%nat) (m := 0%nat) (i := ii) (k := kk) as (i' & k' & E) end.
+  - intros i Hi. cbv beta. cbv -[Z.of_nat List.length List.map Z.sub Z.add Z.to_nat zrange_nat]. rewrite map_length.
+    replace (Z.of_nat i + 1)%Z with (Z.of_nat (S i)) by lia.
+    replace (Z.to_nat (Z.of_nat n - Z.of_nat (S i))) with (n - S i)%nat by lia. reflexivity.
+  - intros i k Hik. cbv beta.
+    assert (HS : Rlit 1 (-10) <= Rabs (nthR px i - nthR px k)) by (apply (Hsep i k); lia).
+    grun. rewrite (proj2 (Rltb_false _ _)) by exact HS. reflexivity.
+  - lia.
+  - change (Z.of_nat 0) with 0%Z in E. rewrite E. clear E. cbv beta.
+    change (VFloat tol0) with (VFloat (Rlit 1 (-10))).
+    change (map VFloat []) with (@nil (val R)) in Eo, Ec.
+    rewrite Eo.
+    change (bind (VTuple ?l) ?f) with (f (VTuple l)). cbv beta.
+    repeat match goal with |- context [item (VTuple [?a; ?b]) 0] => change (item (VTuple [a; b]) 0) with a end.
+    repeat match goal with |- context [item (VTuple [?a; ?b]) 1] => change (item (VTuple [a; b]) 1) with b end.
+    rewrite bind_VNone. getf0.
+    assert (Lsx : List.length (sx px) = n).
+    { destruct (order_any px py (VList []) Hlen Hne (separated_NoDup px Hsep)) as (_ & _ & _ & L1 & _). exact L1. }
+    match goal with |- ifv Rops ?c _ _ = _ => assert (Eg : c = VBool true) end.
+    { cbv -[Z.of_nat List.length List.map Z.gtb sx]. rewrite map_length, Lsx.
+      destruct (Z.gtb_spec (Z.of_nat n) 0); [reflexivity | lia]. }
+    rewrite Eg. clear Eg. change (ifv Rops (VBool true) ?a ?b) with (a tt). cbv beta.
+    rewrite Ec.
+    change (bind (VTuple ?l) ?f) with (f (VTuple l)). cbv beta.
+    repeat match goal with |- context [item (VTuple [?a; ?b]) 0] => change (item (VTuple [a; b]) 0) with a end.
+    repeat match goal with |- context [item (VTuple [?a; ?b]) 1] => change (item (VTuple [a; b]) 1) with b end.
+    rewrite bind_VNone. reflexivity.
+Qed.
+Theorem set_tuples :
+  Interpolation_set Rops S0 (VTuple [VTuple (map VFloat px); VTuple (map VFloat py)]) = VTuple [built (sx px) (sy px py); VNone].
+Proof.
+  pose proof px_ne as Hne.
+  destruct (stored_pipeline px py Hlen Hne Hsep H64) as (Eo & Ec & _).
+  unfold built, tobj, flist, tol0 in Eo, Ec. unfold built, tobj.
+  set_prefix_t.
   match goal with |- dup_fix ?KK ?rrng ?ccond _ ?ii ?kk = _ =>
     destruct (dup_none KK rrng ccond n) with (r := (n - 1)%nat) (m := 0%nat) (i := ii) (k := kk) as (i' & k' & E) end.
   - intros i Hi. cbv beta. cbv -[Z.of_nat List.length List.map Z.sub Z.add Z.to_nat zrange_nat]. rewrite map_length.
@@ -334,4 +430,43 @@ Proof.
   - apply separated_NoDup; exact S.
   - apply separated_NoDup; exact S'.
   - rewrite A, B. reflexivity.
+Qed.
+
+Ltac pyrunv_hook s tac ::=
+  lazymatch s with
+  | Z.of_nat (List.length (cons ?a nil)) => change (Z.of_nat (List.length (cons a nil))) with 1%Z
+  | Z.of_nat (List.length (cons ?a (cons ?b nil))) => change (Z.of_nat (List.length (cons a (cons b nil)))) with 2%Z
+  | py_getitem _ (VTuple [?a]) (VInt 0) => change (py_getitem Rops (VTuple [a]) (VInt 0)) with a
+  | context [get_field ?c ?i (VObj ?c' ?l)] =>
+      let v := eval cbv [get_field cInterpolation Pos.eqb nth] in (get_field c i (VObj c' l)) in
+      change (get_field c i (VObj c' l)) with v
+  end.
+
+(* the copy constructor, ANY table: Interpolation(obj) has the fields of obj *)
+Lemma set_copy (a b c : list R) (t : R) :
+  Interpolation_set Rops (VObj cInterpolation [VList []; VList []; VList []; VFloat (Rlit 1 (-10))])
+    (VTuple [VObj cInterpolation [flist a; flist b; flist c; VFloat t]])
+  = VTuple [VObj cInterpolation [flist a; flist b; flist c; VFloat t]; VNone].
+Proof.
+  unfold Interpolation_set, flist.
+  grun. bstep. bstep. bstep. bstep. reflexivity.
+Qed.
+
+Theorem init_copy (a b c : list R) (t : R) :
+  Interpolation___init__ Rops (VObj cInterpolation [VNone; VNone; VNone; VNone])
+    (VTuple [VObj cInterpolation [flist a; flist b; flist c; VFloat t]])
+  = VObj cInterpolation [flist a; flist b; flist c; VFloat t].
+Proof.
+  rewrite (init_of_set _ _ (set_copy a b c t) ltac:(left; eexists; reflexivity) _ eq_refl). reflexivity.
+Qed.
+
+Theorem init_tuples (px py : list R) :
+  List.length py = List.length px -> (2 <= List.length px <= 64)%nat -> separated px ->
+  Interpolation___init__ Rops (VObj cInterpolation [VNone; VNone; VNone; VNone])
+    (VTuple [VTuple (map VFloat px); VTuple (map VFloat py)])
+  = built (sx px) (sy px py).
+Proof.
+  intros L Hn S.
+  rewrite (init_of_set _ _ (set_tuples px py L ltac:(lia) S ltac:(lia)) ltac:(left; eexists; reflexivity) _ eq_refl).
+  reflexivity.
 Qed.
